@@ -109,9 +109,16 @@ pub fn parse_rowan(text: &str) -> P {
 }
 
 /// the default parser's known defect: a unary operator whose operand is a multiplicative expression
-fn unary_over_mul(tree: &str) -> usize {
-	let toks: Vec<&str> = tree.split(' ').collect();
-	toks.windows(4).filter(|w| w[0].trim_start_matches('(') == "un" && w[0].starts_with('(') && w[2].trim_start_matches('(') == "bin" && ["*", "/", "%"].contains(&w[3])).count()
+/// do two trees consist of the same nodes, merely regrouped, with unary and multiplicative operators involved?
+/// (the signature of the default parser's unary binding-power defect)
+fn unary_mul_regrouping(a: &str, b: &str) -> bool {
+	let norm = |t: &str| {
+		let mut v: Vec<String> = t.split(' ').map(|x| x.trim_matches(|c| c == '(' || c == ')').to_owned()).collect();
+		v.sort();
+		v
+	};
+	let has = |t: &str| t.contains("(un ") && (t.contains("(bin * ") || t.contains("(bin / ") || t.contains("(bin % "));
+	a != b && has(a) && has(b) && norm(a) == norm(b)
 }
 
 fn op_level(op: &str) -> &'static str {
@@ -237,7 +244,7 @@ pub fn compare(rep: &mut Report, text: &str, expect: Option<&str>, cost: u32, _c
 	match (&d, &l) {
 		(P::Ok(a), P::Ok(b)) => {
 			if a != b {
-				let key = if unary_over_mul(a) > unary_over_mul(b) { "unary operator applied to a whole * / % expression by the default parser".to_owned() } else { tree_diff_key(a, b) };
+				let key = if unary_mul_regrouping(a, b) { "unary operator applied to a whole * / % expression by the default parser".to_owned() } else { tree_diff_key(a, b) };
 				viol(format!("tree-mismatch default-vs-legacy {key}"), format!("default: {a}\nlegacy:  {b}"));
 			}
 		}
@@ -266,7 +273,7 @@ pub fn compare(rep: &mut Report, text: &str, expect: Option<&str>, cost: u32, _c
 		for (name, p) in [("default", &d), ("legacy", &l)] {
 			match p {
 				P::Ok(c) if c != exp => {
-					let key = if unary_over_mul(c) > unary_over_mul(exp) { "unary operator applied to a whole * / % expression".to_owned() } else { tree_diff_key(exp, c) };
+					let key = if unary_mul_regrouping(exp, c) { "unary operator applied to a whole * / % expression".to_owned() } else { tree_diff_key(exp, c) };
 					viol(format!("tree-differs-from-grammar {name} {key}"), format!("expected: {exp}\n{name}: {c}"))
 				}
 				P::Rej(m, o) => {
